@@ -85,6 +85,8 @@ func foundationTable() map[string]foundation {
 			func(c *Ctx, sub *Report) { checkEOFChain(c, sub) }, []string{"C07/eof-chain"}, ""},
 		"search-window": {"search-window", "prompt / response searches look at a suffix of the buffer that starts on a line boundary found in itself", 4,
 			func(c *Ctx, sub *Report) { checkSearchDepth(c, sub) }, []string{"C01/search-depth"}, ""},
+		"read-until": {"read-until", "each read-until loop hands its accumulation to the matcher after every chunk it appended, before it reads again", 4,
+			func(c *Ctx, sub *Report) { checkMatchEveryChunk(c, sub, "C01/match-every-chunk") }, []string{"C01/match-every-chunk"}, ""},
 		"ansi": {"ansi", "the escape-sequence pattern applied by the read loop cannot run across ESC or a line end and never cuts a complete sequence short, and matches the specimen control sequences whole", 3,
 			func(c *Ctx, sub *Report) {
 				checkANSIPatternBounded(c, sub, "x/ansi")
